@@ -7,6 +7,8 @@ pub mod c05;
 pub mod c06;
 pub mod c06_e2e;
 pub mod c08;
+pub mod c09;
+pub mod c09_e2e;
 pub mod c11;
 pub mod c13;
 pub mod c15;
@@ -34,6 +36,7 @@ pub fn registry() -> Vec<(&'static str, CheckFn)> {
         ("C05", c05::run as CheckFn),
         ("C06", c06::run as CheckFn),
         ("C08", c08::run as CheckFn),
+        ("C09", c09::run as CheckFn),
         ("C11", c11::run as CheckFn),
         ("C13", c13::run as CheckFn),
         ("C15", c15::run as CheckFn),
